@@ -212,4 +212,36 @@ theorem drop_canon2 (A M B : Lines) (x y : Line) :
 
 theorem take_A (A R : Lines) : (A ++ R).take A.length = A := List.take_left' rfl
 
+/-! ### temporaries: insert at a point, delete what was inserted -/
+
+/-- inserting `x` at a point of a line (`_put_src([x], ln, col, ln, col)`) -/
+theorem insert_at (A B : Lines) (p q x : Line) :
+    putSrcLines (A ++ (p ++ q) :: B) ⟨A.length, p.length, A.length, p.length⟩ (some [x]) = A ++ (p ++ x ++ q) :: B := by
+  have hl : lineAt (A ++ (p ++ q) :: B) A.length = p ++ q := lineAt_append_right A _ _
+  have htk : (A ++ (p ++ q) :: B).take A.length = A := take_A A _
+  have hdr : (A ++ (p ++ q) :: B).drop (A.length + 1) = B := drop_canon A B _
+  simp only [putSrcLines, hl, htk, hdr, beq_self_eq_true, if_true]
+  simp
+
+/-- deleting exactly what was inserted (`_put_src(None, ln, col, ln, col + len(x))`) -/
+theorem delete_inserted (A B : Lines) (p q x : Line) :
+    putSrcLines (A ++ (p ++ x ++ q) :: B) ⟨A.length, p.length, A.length, p.length + x.length⟩ none = A ++ (p ++ q) :: B := by
+  have hl : lineAt (A ++ (p ++ x ++ q) :: B) A.length = p ++ x ++ q := lineAt_append_right A _ _
+  have htk : (A ++ (p ++ x ++ q) :: B).take A.length = A := take_A A _
+  have hdr : (A ++ (p ++ x ++ q) :: B).drop (A.length + 1) = B := drop_canon A B _
+  have hne : (A.length != A.length) = false := by simp
+  by_cases hx : x = []
+  · subst hx
+    simp [putSrcLines]
+  · have hlen : (p.length + x.length != p.length) = true := by
+      simp
+      exact hx
+    simp only [putSrcLines, hl, htk, hdr, hne, hlen, if_true, Bool.false_eq_true, if_false]
+    have e1 : (p ++ x ++ q).take p.length = p := by
+      rw [List.append_assoc]; exact List.take_left' rfl
+    have e2 : (p ++ x ++ q).drop (p.length + x.length) = q := by
+      exact List.drop_left' (by simp)
+    rw [e1, e2]
+    simp
+
 end Pfst.Copy
